@@ -601,7 +601,160 @@ def install_c03():
     patch_everywhere(orig, remove_cons_vars_from_problem)
 
 
-INSTALLERS = {"C01": install_c01, "C03": install_c03, "C04": install_c04, "C12": install_c12, "C13": install_c13, "C15": install_c15, "C16": install_c16}
+# ---------------------------------------------------------------------------------------
+# C02: cross references are consistent at every quiescent point (optimize / slim_optimize
+# entry: cobrapy never optimises in the middle of an edit)
+# ---------------------------------------------------------------------------------------
+def _xref_class(e):
+    for frag, cls in (
+        ("that is not in the model (dangling)", "dangling"),
+        ("share one gene rule object", "shared-rule-object"),
+        ("duplicate", "duplicate-ids"),
+        (".model is not the model", "back-pointer"),
+        ("get_by_id returns another object", "index"),
+        ("index ", "index"),
+        ("lookup raised", "index"),
+        ("zero coefficient", "zero-coefficient"),
+        ("not in model.metabolites", "metabolite-missing"),
+        ("is not the model's object", "foreign-object"),
+        ("which does not list the reaction", "one-sided-reference"),
+        ("which does not list the metabolite", "one-sided-reference"),
+        ("which does not list the gene", "one-sided-reference"),
+        ("not in model.genes", "gene-missing"),
+        ("!= genes of rule", "genes-vs-rule"),
+        ("is not in the model", "group-member-outside"),
+    ):
+        if frag in e:
+            return cls
+    return "other"
+
+
+def _gapfiller_working_model(model):
+    """Proves the recorded mechanism: the model is the private working copy of a GapFiller that is
+    running right now (a caller's `self` is a GapFiller whose .model is this model and whose
+    .original_model is another one)."""
+    from cobra.flux_analysis.gapfilling import GapFiller
+
+    f = sys._getframe(1)
+    while f is not None:
+        me = f.f_locals.get("self")
+        if isinstance(me, GapFiller) and getattr(me, "model", None) is model and getattr(me, "original_model", None) is not model:
+            return True
+        f = f.f_back
+    return False
+
+
+def install_c02():
+    import cobra
+    from cv import observe
+
+    def wrap(fn):
+        @functools.wraps(fn)
+        def method(self, *a, **k):
+            if not busy() and _sampled(self, 200):
+                with _Guard():
+                    count("C02.xref_checks_at_optimize")
+                    try:
+                        errs = observe.xref_errors(self)
+                    except Exception as e:
+                        errs = []
+                        count("C02.oracle_errors")
+                        emit({"k": "oracle_error", "prop": "C02", "what": "xref", "err": repr(e)[:300], "test": _S["test"]})
+                    seen = set()
+                    lent = errs and _gapfiller_working_model(self) and all(_xref_class(e) == "back-pointer" for e in errs)
+                    for e in errs:
+                        cls = _xref_class(e)
+                        if cls in seen:
+                            continue
+                        seen.add(cls)
+                        if lent:
+                            key = "C02/xref/gapfiller-working-model-objects-lose-their-model"
+                        elif cls == "dangling":
+                            key = "C02/xref/metabolite-or-gene-lists-a-reaction-outside-the-model"
+                        else:
+                            key = f"C02/suite/xref/{cls}"
+                        violation("C02", key, e, {"n_errors": len(errs)})
+            return fn(self, *a, **k)
+
+        return method
+
+    cobra.Model.optimize = wrap(cobra.Model.optimize)
+    cobra.Model.slim_optimize = wrap(cobra.Model.slim_optimize)
+
+    # ... and at the return of every outermost public editing operation
+    depth = [0]
+
+    def judge(model, where, raised):
+        count("C02.xref_checks_after_edit")
+        try:
+            errs = observe.xref_errors(model)
+        except Exception as e:
+            count("C02.oracle_errors")
+            emit({"k": "oracle_error", "prop": "C02", "what": "xref after " + where, "err": repr(e)[:300], "test": _S["test"]})
+            return
+        seen = set()
+        for e in errs:
+            cls = _xref_class(e)
+            if cls in seen:
+                continue
+            seen.add(cls)
+            key = "C02/xref/metabolite-or-gene-lists-a-reaction-outside-the-model" if cls == "dangling" else f"C02/suite/xref/{cls}/after-{where}" + ("-raised" if raised else "")
+            violation("C02", key, e, {"n_errors": len(errs), "operation": where})
+
+    def model_of(x):
+        if isinstance(x, cobra.Model):
+            return x
+        return getattr(x, "_model", None)
+
+    def wrap_edit(where, fn, arg=0):
+        @functools.wraps(fn)
+        def edit(*a, **k):
+            target = a[arg] if len(a) > arg else k.get("model", k.get("cobra_model"))
+            m = model_of(target)
+            pre_ok = None
+            if depth[0] == 0 and not busy() and isinstance(m, cobra.Model) and len(m.reactions) <= BIG:
+                with _Guard():
+                    try:
+                        pre_ok = not observe.xref_errors(m)
+                    except Exception:
+                        pre_ok = None
+                    if pre_ok is False:
+                        count("C02.edits_of_models_already_inconsistent_not_judged")
+            depth[0] += 1
+            try:
+                return fn(*a, **k)
+            finally:
+                depth[0] -= 1
+                if pre_ok:
+                    with _Guard():
+                        judge(m, where, sys.exc_info()[0] is not None)
+
+        return edit
+
+    for cls, names in (
+        (cobra.Model, ["add_reactions", "remove_reactions", "add_metabolites", "remove_metabolites", "add_boundary", "add_groups", "remove_groups", "merge", "repair"]),
+        (cobra.Reaction, ["add_metabolites", "subtract_metabolites", "build_reaction_from_string", "remove_from_model", "delete", "knock_out", "__iadd__", "__isub__", "__imul__"]),
+        (cobra.Metabolite, ["remove_from_model"]),
+    ):
+        for name in names:
+            fn = cls.__dict__.get(name)
+            if fn is not None:
+                setattr(cls, name, wrap_edit(f"{cls.__name__}.{name}", fn))
+    for pname in ("gene_reaction_rule", "gpr", "id"):
+        prop = cobra.Reaction.__dict__.get(pname)
+        if isinstance(prop, property) and prop.fset is not None:
+            setattr(cobra.Reaction, pname, property(prop.fget, wrap_edit(f"Reaction.{pname}=", prop.fset), prop.fdel, prop.__doc__))
+    import cobra.manipulation.delete as md
+    import cobra.manipulation.modify as mm
+
+    for mod, names in ((md, ["remove_genes", "knock_out_model_genes", "prune_unused_metabolites", "prune_unused_reactions"]), (mm, ["rename_genes", "escape_ID"])):
+        for name in names:
+            fn = getattr(mod, name, None)
+            if fn is not None:
+                patch_everywhere(fn, wrap_edit("manipulation." + name, fn))
+
+
+INSTALLERS = {"C02": install_c02, "C01": install_c01, "C03": install_c03, "C04": install_c04, "C12": install_c12, "C13": install_c13, "C15": install_c15, "C16": install_c16}
 
 
 def install(props, logdir):
@@ -620,7 +773,7 @@ def set_test(nodeid):
     _S["evals_at_test_start"] = sum(v for k, v in _S["counters"].items() if k.endswith(EVAL_SUFFIXES))
 
 
-EVAL_SUFFIXES = ("core_checks_at_optimize", "outermost_exits_checked", "optimize_judged", "slim_judged", "copies_checked", "analysis_calls_checked", "mutations_checked", "rows_checked")
+EVAL_SUFFIXES = ("xref_checks_at_optimize", "xref_checks_after_edit", "core_checks_at_optimize", "outermost_exits_checked", "optimize_judged", "slim_judged", "copies_checked", "analysis_calls_checked", "mutations_checked", "rows_checked")
 
 
 def end_test():
